@@ -119,3 +119,18 @@ CHECKS["C19"] = {
         {"pkg": SERVER, "run": "^TestVerif_C19_Rates$", "checks": {"quick": 100, "thorough": 8000}, "shards": {"thorough": 16}, "timeout": {"quick": 300}},
     ],
 }
+
+CHECKS["C11"] = {
+    "level": "exploration",
+    "exhaustive_claim": True,
+    "technique": "exhaustive single-bit flips over whole messages of 5 small sizes (all header/tag bits + sampled payload bits for large ones) x 3 AEAD methods x padded/unpadded; rapid-generated multi-byte corruptions, truncations, extensions, foreign keys/methods and garbage against deobfuscate and a live Session; native go fuzzing in the thorough tier",
+    "level_text": "Every variant of a genuine message must be rejected by the codec and, fed to a live session, must leave stream table, counters and accept queue untouched while a following valid frame is still delivered in order; garbage of 0..20480 bytes must never panic under any method. Modifications confined to wire bytes 12/13 are the recorded known finding and are excluded by construction (executed, counted, reported).",
+    "level_note": "Key and nonce space are sampled. The known finding F-C11 (bytes 12/13 unauthenticated) is listed in known_findings.json; any other accepted modification is a VIOLATION.",
+    "rule": "Flips: for payload lengths 1,2,17,100,270 every bit of every byte position (padded seq 2 and unpadded seq 9), for 1500 and 16132 all 112 header bits, all 128 tag bits and 200 payload positions; x aes-256-gcm, chacha20-poly1305, aes-128-gcm. Random: rapid-drawn kind in {multi-byte xor, truncate 1..64, extend 1..64, other key, other method, garbage 0..20480 (all four methods), flip}. Every case non-trivial; distinct = distinct (method,size,position,bit) resp. scenarios.",
+    "assumptions": ["x/crypto and crypto/aes AEAD implementations are correct"],
+    "jobs": [
+        {"pkg": MUX, "run": "^TestVerif_C11_Flips$"},
+        {"pkg": MUX, "run": "^TestVerif_C11_Random$", "checks": {"quick": 4000, "thorough": 600000}, "shards": {"thorough": 16}},
+        {"pkg": MUX, "run": "^$", "tiers": ["thorough"], "fuzz": {"target": "^FuzzVerifRecvData$", "seconds": {"quick": 0, "thorough": 150}}},
+    ],
+}
